@@ -23,6 +23,12 @@ ALSO = {
 OWN_OVERRIDE = {}
 if ROUND == 2:
     ALSO["C16-m2"] = ["C04"]
+elif ROUND >= 4:
+    ALSO = {}
+    if ROUND == 4:
+        # Not reported by any check: the change only matters after 2^31 operations on one task (DESIGN 6.3).
+        OWN_OVERRIDE = {"C05-m1": [], "C05-m2": []}
+        ALSO = {"C01-m1": ["C04", "C08", "C16"], "C08-m1": ["C04", "C16"], "C01-m2": ["C07", "C10"], "C15-m1": ["C01"], "C07-m2": ["C01"], "C16-m1": ["C11"], "C11-m1": ["C16"], "C06-m1": ["C12"], "C12-m1": ["C06"]}
 else:
     ALSO = {"C06-m1": ["C12"], "C08-m2": ["C16", "C04"], "C16-m2": ["C08", "C04"], "C10-m1": ["C14"], "C11-m1": ["C16"], "C16-m1": ["C11"], "C07-m2": ["C20"], "C20-m2": ["C07"]}
 
@@ -61,7 +67,7 @@ for key in sorted(INFO):
         "how_checked": "tools/mutrun.py <patch> <checks>",
     }
     json.dump(meta, open(os.path.join(d, "meta.json"), "w"), indent=1)
-    rows.append((name, prop, what, needs, ", ".join(checks)))
+    rows.append((name, prop, what, needs, ", ".join(checks) if checks else "none (out of reach)"))
 
 readme = os.path.join(DST, "README.md")
 text = open(readme).read()
@@ -74,7 +80,9 @@ if marker in open(readme).read():
     if "\n## Round" in rest:
         later = "\n## Round" + rest.split("\n## Round", 1)[1]
 intro = {2: "Sub-agents were asked for *different, less central* code sites than in round 1.",
-         3: "Sub-agents were asked for a third class of change: memory orderings, off-by-one errors in masks and counters, resource lifecycle, state surviving across steps / clones / simulations, rare API combinations, the worker-thread protocol."}[ROUND]
+         3: "Sub-agents were asked for a third class of change: memory orderings, off-by-one errors in masks and counters, resource lifecycle, state surviving across steps / clones / simulations, rare API combinations, the worker-thread protocol.",
+         4: "Sub-agents were asked for changes that short, small scenarios would not show: larger sizes and longer histories, extreme values, rare API and type shapes, particular orders of configuration and use. `C05-r4-m1/m2` are reported by no check (they need 2^31 operations on one task, see DESIGN 6.3).",
+         5: "Free choice of site, avoiding everything used in rounds 2-4."}[ROUND]
 text += marker + "\n" + intro + "\n\n| id | property | change | needs | reported by (quick) |\n|---|---|---|---|---|\n"
 for r in rows:
     text += "| %s | %s | %s | %s | %s |\n" % r
